@@ -151,6 +151,17 @@ def run(ctx):
                             shp = pool[i].sector(key).coeff.shape
                             arr = numpy.array([[U.gint(rng) for _ in range(shp[1])] for _ in range(shp[0])],
                                               dtype=numpy.complex128).reshape(shp)
+                            # the caller's array may be real-valued, integer, or Fortran-ordered: the state is the
+                            # complex vector with these values all the same (later complex writes / scalings and
+                            # the kernels must see an ordinary complex coefficient array)
+                            form = rng.choice(["complex", "complex", "fortran", "real", "int"])
+                            if form == "fortran":
+                                arr = numpy.asfortranarray(arr)
+                            elif form == "real":
+                                arr = numpy.ascontiguousarray(arr.real)
+                            elif form == "int":
+                                arr = numpy.ascontiguousarray(arr.real).astype(numpy.int64)
+                            ctx.count(f"setwfn:raw-data-form:{form}")
                             data[key] = arr
                         pool[i].set_wfn(strategy="from_data", raw_data=data)
                         if any(data[k] is pool[i].sector(k).coeff for k in data):
@@ -172,6 +183,16 @@ def run(ctx):
                         # later mutation of the caller's arrays must not leak into the wavefunction
                         for key in data:
                             data[key][...] = 99
+                        # whatever the layout of the caller's arrays, the state is usable by every public operation:
+                        # the qubit export (a C kernel on the accelerated path) sees the same vector
+                        if max(k[0] for k in pool[i].sectors()) >= 0:
+                            try:
+                                vq = fqe.to_cirq(pool[i])
+                                n2 = sum(float(a * a + b * b) for a, b in model[i].values())
+                                if abs(float(numpy.vdot(vq, vq).real) - n2) > 1e-9 * max(1.0, n2):
+                                    ok, what = False, f"to_cirq after set_wfn(from_data, {form}): norm^2 {numpy.vdot(vq, vq).real} != {n2}"
+                            except Exception as exc:
+                                ok, what = False, f"to_cirq after set_wfn(from_data, {form} array) raised {type(exc).__name__}: {str(exc)[:120]}"
                 elif op == "emptycopy":
                     pool[j] = pool[i].empty_copy()
                     model[j] = {}
